@@ -86,6 +86,15 @@ func EndBlocker(ctx sdk.Context, k keeper.Keeper) {
 			providers[i] = pd
 		}
 
+		if requestContext.State == types.RUNNING && requestContext.Repeated &&
+			requestContext.RepeatedTotal > 0 && int64(requestContext.BatchCounter) >= requestContext.RepeatedTotal {
+			// the repeated total is used up (e.g. the context was paused over the expiry of its last
+			// batch and started again): complete the context instead of issuing one batch too many
+			k.CompleteServiceContext(ctx, *requestContext, requestContextID)
+			k.DeleteNewRequestBatch(ctx, requestContextID, ctx.BlockHeight())
+			return
+		}
+
 		if requestContext.State == types.RUNNING {
 			providers, _, rawDenom, err := k.FilterServiceProviders(
 				ctx,
